@@ -662,6 +662,43 @@ func runCase(r *common.Rand, sh shape, kind string, ht uint8, flags uint32, viaF
 	c.Case(coq, tw, fmt.Sprintf("%s/idx=%d/%s", bucket, sh.idx, common.Hex(pre0)), len(mobs) > 0)
 }
 
+// largeInscriptions: spent P2PKH-inscription outputs whose script is longer than the pre-Genesis script and element
+// limits (the payloads people inscribe are images): built with Tx.Inscribe, signed through unlocker.Simple with each
+// hash type, accepted by the interpreter for an output of the Genesis era; a changed payload byte is rejected.
+// Implementation only (the preimages run to tens of kilobytes; the model's statement is size-independent).
+func largeInscriptions(r *common.Rand) {
+	for si, size := range []int{519, 521, 9900, 10100, 70000} {
+		for ti, ht := range forkidTypes {
+			if !c.Thorough() && (si+ti+int(c.Seed))%3 != 0 {
+				continue
+			}
+			k := newKey(r)
+			lock := inscription(k, "image/png", r.Bytes(size), nil)
+			b := built{used: map[string]bool{}, keys: []key{k}, kinds: []string{"inscription"}}
+			b.spec = txgen.TxSpec{Version: 1, Lock: 0, Ins: []txgen.InSpec{{Txid: common.Hex(r.Bytes(32)), Vout: 1, Seq: 0xffffffff, Sats: 1, Prev: common.Hex(lock)}},
+				Outs: []txgen.OutSpec{{Sats: 1, Script: common.Hex(p2pkh(k))}}}
+			tw := map[string]interface{}{"kind": "large-inscription", "payload_bytes": size, "spent_script_bytes": len(lock), "ht": ht}
+			c.Tally(fmt.Sprintf("large-inscription/%d", size))
+			s, err := sign(b, ht, false)
+			if err != nil {
+				c.Violate("FillInput/sign-error", err.Error(), tw)
+				continue
+			}
+			if ok, msg := accepts(s, 0, fForkID|fGenesis); !ok {
+				c.Violate("interpreter/rejects-library-signature-on-a-large-inscription", fmt.Sprintf("payload %d bytes, spent script %d bytes, type %02x: %s", size, len(lock), ht, msg), tw)
+			}
+			m := cloneSpec(s)
+			lb := common.Unhex(m.Ins[0].Prev)
+			lb[len(lb)-2] ^= 1
+			m.Ins[0].Prev = common.Hex(lb)
+			if ok, _ := accepts(m, 0, fForkID|fGenesis); ok {
+				c.Violate("interpreter/accepts-after-payload-change-on-a-large-inscription", fmt.Sprintf("payload %d bytes, type %02x", size, ht), tw)
+			}
+			c.Case("", tw, fmt.Sprintf("L%d/%02x", size, ht), true)
+		}
+	}
+}
+
 func main() {
 	c = common.Parse("C04")
 	c.SetHeader(header)
@@ -690,6 +727,7 @@ func main() {
 	} else if thorough {
 		rounds = 4 // fresh keys and fields for every shape x type, four times over
 	}
+	largeInscriptions(r.Fork())
 	n := 0
 	for round := 0; round < rounds; round++ {
 		for si, sh := range shapes {
